@@ -46,8 +46,20 @@ fn hostile_catalog(r: &mut Rng) -> Catalog {
         if ti > 0 {
             cols.push(ColDef::new("ref", DataType::integer_interval(1, 200)).refs("t0", "id"));
         }
+        // one catalogue in five has only unbounded numeric columns (sums and products reach the ends of the domain)
+        let unbounded = r.chance(1, 5);
         for name in ["a", "b", "c", "d"].iter().take(2 + r.usize(3)) {
-            cols.push(ColDef::new(name, hostile_type(r)));
+            let ty = if unbounded {
+                let t = match r.below(4) {
+                    0 | 1 => DataType::float(),
+                    2 => DataType::integer(),
+                    _ => DataType::float_interval(f64::MIN, f64::MAX),
+                };
+                if r.chance(1, 4) { DataType::optional(t) } else { t }
+            } else {
+                hostile_type(r)
+            };
+            cols.push(ColDef::new(name, ty));
         }
         let size = match r.below(5) {
             0 => (0, 0),
@@ -64,8 +76,15 @@ fn hostile_catalog(r: &mut Rng) -> Catalog {
 const UNARY_NUM: &[&str] = &["exp", "ln", "log", "log2", "log10", "abs", "sin", "cos", "tan", "sqrt", "square", "sign", "ceil", "floor", "degrees", "md5", "char_length", "lower", "upper", "unhex", "dayname", "quarter", "date", "unix_timestamp"];
 const BINARY: &[&str] = &["pow", "power", "round", "trunc", "greatest", "least", "concat", "substr", "ltrim", "rtrim", "btrim", "regexp_contains", "encode", "decode", "date_format", "from_unixtime", "coalesce", "position_of"];
 
+thread_local! {
+    /// which arithmetic operator sits inside the aggregate of the last generated query (signature material:
+    /// a range that leaves the domain is one defect per operator, not one defect for all of them)
+    static AGG_OP: std::cell::RefCell<String> = std::cell::RefCell::new(String::new());
+}
+
 /// Grammar 1: supported constructs with the full function set
 fn supported_query(r: &mut Rng, cat: &Catalog) -> String {
+    AGG_OP.with(|t| t.borrow_mut().clear());
     let t = r.pick(&cat.tables);
     let c1 = &r.pick(&t.cols).name;
     let c2 = &r.pick(&t.cols).name;
@@ -73,7 +92,34 @@ fn supported_query(r: &mut Rng, cat: &Catalog) -> String {
     let lit = || -> String { "0".into() };
     let _ = lit;
     let num_lit = *r.pick(&["0", "1", "-1", "2", "0.5", "1e10", "9223372036854775807", "-9223372036854775808", "0.0"]);
-    match r.below(30) {
+    match r.below(34) {
+        30 | 31 => {
+            // aggregates of arithmetic over (possibly unbounded) columns: the range arithmetic must stay inside the domain
+            let op = *r.pick(&["+", "-", "*", "/"]);
+            let agg = *r.pick(&["SUM", "AVG", "VARIANCE", "STDDEV", "MIN", "MAX"]);
+            AGG_OP.with(|t| *t.borrow_mut() = format!("|aggregate of x {} y", op));
+            format!("SELECT {}({} {} {}) AS s, COUNT(*) AS n FROM {}", agg, q(c1), op, q(c2), t.name)
+        }
+        32 | 33 => {
+            // every function name the reader knows, with 0 to 4 arguments: too few or too many is an error, never a panic
+            const NAMES: &[&str] = &[
+                "abs", "btrim", "char_length", "choose", "coalesce", "concat", "cos", "current_date", "current_time", "current_timestamp", "date_format",
+                "datetime_diff", "decode", "degrees", "encode", "exp", "from_hex", "greatest", "least", "ln", "log", "log10", "log2", "lower", "ltrim",
+                "md5", "newid", "pi", "pow", "power", "rand", "random", "regexp_contains", "regexp_extract", "regexp_replace", "regexp_substr", "round",
+                "rtrim", "sign", "sin", "sqrt", "square", "substr", "tan", "trunc", "truncate", "unhex", "unix_timestamp", "upper", "avg", "count", "date",
+                "dayname", "from_unixtime", "max", "min", "quarter", "stddev", "sum", "variance",
+            ];
+            let f = *r.pick(NAMES);
+            let n = r.usize(5);
+            let args: Vec<String> = (0..n)
+                .map(|_| match r.below(4) {
+                    0 => "'a'".to_string(),
+                    1 => num_lit.to_string(),
+                    _ => q(&r.pick(&t.cols).name),
+                })
+                .collect();
+            format!("SELECT {}({}) AS x FROM {}", f, args.join(", "), t.name)
+        }
         0 => format!("SELECT {} / {} AS x FROM {}", q(c1), q(c2), t.name),
         1 => format!("SELECT {} % {} AS x FROM {}", q(c1), q(c2), t.name),
         2 => format!("SELECT {} / {} AS x, {} * {} AS y FROM {}", q(c1), q(c1), q(c1), q(c2), t.name),
@@ -89,7 +135,10 @@ fn supported_query(r: &mut Rng, cat: &Catalog) -> String {
         5 => format!("SELECT CAST({} AS {}) AS x FROM {}", q(c1), r.pick(&["FLOAT", "INTEGER", "TEXT", "BOOLEAN", "DATE", "TIMESTAMP", "TIME", "VARCHAR"]), t.name),
         6 => format!("SELECT {} + {} AS x, {} - {} AS y, - {} AS z FROM {}", q(c1), num_lit, q(c2), num_lit, q(c3), t.name),
         7 => format!("SELECT SUM({}) AS s, AVG({}) AS a, COUNT({}) AS n, MIN({}) AS lo, MAX({}) AS hi, VARIANCE({}) AS v, STDDEV({}) AS sd FROM {}", q(c1), q(c1), q(c2), q(c1), q(c2), q(c1), q(c2), t.name),
-        8 => format!("SELECT {} AS k, SUM({} * {}) AS s FROM {} GROUP BY {}", q(c1), q(c2), q(c3), t.name, q(c1)),
+        8 => {
+            AGG_OP.with(|t| *t.borrow_mut() = "|aggregate of x * y".to_string());
+            format!("SELECT {} AS k, SUM({} * {}) AS s FROM {} GROUP BY {}", q(c1), q(c2), q(c3), t.name, q(c1))
+        }
         9 => format!("SELECT * FROM {} WHERE {} > {} AND {} IN ({}, 1, 2) OR NOT ({} <= {})", t.name, q(c1), num_lit, q(c2), num_lit, q(c3), num_lit),
         10 => format!("SELECT CASE WHEN {} > {} THEN {} ELSE {} END AS x FROM {}", q(c1), num_lit, q(c2), q(c3), t.name),
         11 => format!("SELECT CASE {} WHEN {} THEN 'a' WHEN 1 THEN 'b' ELSE 'c' END AS x FROM {}", q(c1), num_lit, t.name),
@@ -199,7 +248,12 @@ pub fn run(p: &Params) -> Report {
             for _ in 0..4 {
                 let supported = r.chance(3, 4);
                 let grammar = if supported { "supported" } else { "unsupported" };
-                let sql = if supported { supported_query(&mut r, &cat) } else { unsupported_query(&mut r, &cat) };
+                let sql = if supported {
+                    supported_query(&mut r, &cat)
+                } else {
+                    AGG_OP.with(|t| t.borrow_mut().clear());
+                    unsupported_query(&mut r, &cat)
+                };
                 write_inflight(&pp.inflight, &json!({"query": sql, "catalog": cat.to_json(0), "signature_hint": "process died while compiling"}));
                 rep.nontrivial(hash64(&(sql.clone(), format!("{:?}", cat.tables.iter().map(|t| t.cols.iter().map(|c| c.ty.to_string()).collect::<Vec<_>>()).collect::<Vec<_>>()))));
                 let rel = stage("parse", grammar, &sql, &cat, rep, || {
